@@ -4,7 +4,10 @@
    other variables and constants are Trace::constant).  Result: (number derivative) per output.
    The harness runs every program through all ownership forms and the other operand kind (six
    runs), through Trace::derivative(closure, x), and through Record in reverse mode, and demands
-   that the derivative equals derivatives().at(seeded variable) exactly.
+   that the derivative equals derivatives().at(seeded variable) exactly.  A program with a Sum
+   instruction is also run with the summed traces handed to `impl Sum for Trace` through 15 more
+   iterator SHAPES (unknown lower bound, from_fn, chain, not fused, lying size hints; see
+   tools/props/c04.py and harness/src/c04/prog.rs `sum_shaped`).
    (5 2 seed body outputs): float oracle on f64 (see tools/props/c04.py), flags (1 1 1)."""
 import random
 from tools.vlib import sx, parse_sx
